@@ -42,6 +42,23 @@ func rangeInts(lo, hi int) []int {
 }
 
 func genC07(e *emitter, tier string) {
+	// the shape operators as a MODEL delivers them (load + Run): results of rank 0 (Squeeze of every axis) stay
+	// rank 0 as graph outputs, a Reshape whose target is a weight with 0 (copy the extent) and -1 loads and runs,
+	// Flatten / Unsqueeze / Shape next to them
+	{
+		ini := func(name string, v ...int) InitJ { return InitJ{Name: name, T: idxT("i64", []int{len(v)}, v)} }
+		g := &GraphJ{Inputs: []VInfoJ{{Name: "a", Dt: "f32", Dims: []any{1, 1}}, {Name: "b", Dt: "f32", Dims: []any{1, 1, 1}}, {Name: "c", Dt: "f32", Dims: []any{1}}, {Name: "m", Dt: "f32", Dims: []any{2, 3, 4}}},
+			Inits: []InitJ{ini("ax3", -1, 0, 1), ini("ax0", 0), ini("t0m1", 0, -1), ini("t00m1", 0, 0, -1), ini("tm10", -1, 0), ini("u0", 0)},
+			Nodes: []NodeJ{
+				{Op: "Squeeze", Ins: []string{"a"}, Outs: []string{"s0"}}, {Op: "Squeeze", Ins: []string{"b", "ax3"}, Outs: []string{"s1"}},
+				{Op: "Squeeze", Ins: []string{"c", "ax0"}, Outs: []string{"s2"}},
+				{Op: "Reshape", Ins: []string{"m", "t0m1"}, Outs: []string{"r1"}}, {Op: "Reshape", Ins: []string{"m", "t00m1"}, Outs: []string{"r2"}},
+				{Op: "Reshape", Ins: []string{"m", "tm10"}, Outs: []string{"r3"}},
+				{Op: "Unsqueeze", Ins: []string{"s0", "u0"}, Outs: []string{"u"}}, {Op: "Shape", Ins: []string{"r1"}, Outs: []string{"sh"}},
+				{Op: "Flatten", Attrs: []Attr{{Name: "axis", Type: "i", I: 2}}, Ins: []string{"m"}, Outs: []string{"f"}},
+			}, Outputs: []string{"s0", "s1", "s2", "r1", "r2", "r3", "u", "sh", "f"}}
+		e.emit(graphCase("shape-ops-through-run", g, []NamedT{{"a", vals("f32", []int{1, 1}, 5)}, {"b", vals("f32", []int{1, 1, 1}, 6)}, {"c", vals("f32", []int{1}, 7)}, {"m", seqT("f32", []int{2, 3, 4}, func(i int) float64 { return float64(i) })}}))
+	}
 	R, E := 3, 3
 	tlen := 3
 	if tier == "thorough" {
